@@ -10,6 +10,8 @@ from __future__ import annotations
 
 import math
 
+from vt.mon import c37_kinds as KN
+
 SEP = "\x1f"
 LAB = "\x1e"
 
@@ -55,13 +57,16 @@ LIB_EVALCTX = (
 )
 LIB = LIB + LIB_EVALCTX
 
+# type families with an awaitable and a plain member
+PAIR_FAMILIES = ["generator", "class-named-Val", "Base-hierarchy", "AwBase-hierarchy"]
+
 ALL_LABELS = (
     "loop", "nested-loop", "namespace", "namespace-bare", "namespace-dict", "import-macro",
     "import-call-block", "import-macro-namespace", "import-macro-cycler", "autoescape-const",
     "autoescape-dynamic", "local-macro", "local-call-block", "include", "set-block",
     "cycler-joiner", "with", "recursive-loop", "async-filters", "loop-filter", "assign",
-    "import-with-context", "import-macro-autoescape", "import-macro-evalctx-probe", "base",
-    "base2", "super")
+    "import-with-context", "import-macro-autoescape", "import-macro-evalctx-probe",
+    "awaitable-kinds", "base", "base2", "super")
 
 # labels of fragments that run code of the cached library lib.j2 (whose Context and
 # eval context are shared by every task that imports it)
@@ -104,8 +109,77 @@ class FG:
                   self.recursive, self.filters, self.loopfilter, self.assign, self.ctx_import,
                   self.callblock_local, self.autoescape_dyn, self.namespace_bare,
                   self.imp_autoescape, self.imp_autoescape, self.imp_evalctx_probe,
-                  self.imp_evalctx_probe]
+                  self.imp_evalctx_probe, self.kinds, self.kinds, self.kinds, self.kinds]
         return r.choice(makers)()
+
+    # engine-made lazy results that pass through the await-if-awaitable wrapper as
+    # filter results: (name, type family noted for the harness, source)
+    LAZY = [
+        ("batch", "generator", "{% for c in xs|batch(2) %}{{ c|join('+') }};{% endfor %}"),
+        ("slice", "generator", "{% for c in xs|slice(2) %}{{ c|join('+') }};{% endfor %}"),
+        ("unique", "generator", "{{ xs|unique|join('-') }}"),
+        ("map", "async_generator", "{{ xs|map('string')|join('-') }}"),
+        ("select", "async_generator", "{{ xs|select('odd')|list|length }}"),
+        ("reverse", "reverse-iterator", "{{ xs|reverse|join('-') }}"),
+        ("batch-map", "generator", "{{ xs|batch(2)|map('join', '+')|join(';') }}"),
+    ]
+
+    def kind_use(self, kind=None, chan=None):
+        """One value of a kind reaching the template through a channel, printed as
+        ``[channel.kind=...]``."""
+        r = self.r
+        kind = kind or r.choice(sorted(KN.KINDS))
+        chan = chan or r.choice(KN.CHANNELS)
+        tag = self.t()
+        if chan == "call":
+            expr = "k.mk('%s', %s)" % (kind, tag)
+        elif chan in ("fn", "part", "obj"):
+            expr = "k.%s.%s(%s)" % (chan, kind, tag)
+        elif chan == "attr":
+            expr = "k.at.%s_%s" % (kind, tag.strip("'"))
+        elif chan == "item":
+            expr = "k.it['%s_%s']" % (kind, tag.strip("'"))
+        elif chan == "filter":
+            expr = "(k|mk('%s', %s))" % (kind, tag)
+        else:
+            expr = "([k]|map('mk', '%s', %s)|first)" % (kind, tag)
+        if KN.KINDS[kind][2] == "str":
+            body = "{{ " + expr + " }}"
+        else:
+            body = r.choice(["{{ " + expr + "|join('/') }}",
+                             "{% for v in " + expr + " %}{{ v }}/{% endfor %}",
+                             "{{ " + expr + "|list|length }}"])
+        return "[" + chan + "." + kind + "=" + body + "]"
+
+    def lazy_use(self, which=None):
+        name, family, src = which or self.r.choice(self.LAZY)
+        return "[lazy." + name + "={{ k.note('" + family + "', 0) }}" + src + "]"
+
+    def kinds(self, first=None, family=None):
+        """2-5 values of different kinds; first: 'plain' / 'awaitable' forces what the
+        fragment starts with (a plain value before its first await point / an awaitable
+        behind it), family: of which type family."""
+        r = self.r
+        uses = []
+        fams = PAIR_FAMILIES if family == "*" else [family]
+        if first == "plain":
+            for fam in fams:
+                fam_kinds = [k for k in sorted(KN.KINDS) if fam in (None, KN.KINDS[k][1])]
+                opts = [(self.kind_use, k) for k in fam_kinds if not KN.KINDS[k][0]]
+                opts += [(self.lazy_use, z) for z in self.LAZY if fam in (None, z[1])]
+                f, a = r.choice(opts)
+                uses.append(f(a))
+            uses.append("{{ g(" + self.t() + ") }}")
+        elif first == "awaitable":
+            uses.append("{{ g(" + self.t() + ") }}")
+            for fam in fams:
+                fam_kinds = [k for k in sorted(KN.KINDS) if fam in (None, KN.KINDS[k][1])]
+                uses.append(self.kind_use(r.choice([k for k in fam_kinds if KN.KINDS[k][0]])))
+        for _ in range(r.randint(2, 4)):
+            c = r.random()
+            uses.append(self.lazy_use() if c < 0.25 else self.kind_use())
+        uses.insert(r.randint(1, len(uses)), "{{ g(" + self.t() + ") }}")
+        return ("awaitable-kinds", "".join(uses))
 
     def loop(self):
         a = self.r.choice(["{{ loop.index }}/{{ loop.length }}", "{{ loop.revindex }}",
@@ -274,8 +348,11 @@ def render_frags(frags):
     return SEP.join(lab + LAB + src for lab, src in frags)
 
 
-def gen_case(rng, force_evalctx=False):
-    """force_evalctx: main 0 gets a fragment whose imported macro awaits inside an
+def gen_case(rng, force_evalctx=False, force_kinds=False, all_families=False):
+    """force_kinds: both main templates get a fragment with values of several kinds,
+    one starting with a plain / engine-made lazy value, the other with an awaitable
+    one behind its first await point; tasks 0 / 1 render main 0 / 1.
+    force_evalctx: main 0 gets a fragment whose imported macro awaits inside an
     autoescape block, main 1 an eval-context probe inside the same cached library, and
     tasks 0 / 1 render main 0 / 1."""
     fg = FG(rng)
@@ -287,9 +364,17 @@ def gen_case(rng, force_evalctx=False):
                        + "base" + LAB + "{{ name }}{% block b1 %}{{ g('b1') }}{{ name }}{% endblock %}"
                        + SEP + "base2" + LAB + "{% block b2 %}{{ name }}{% endblock %}{{ self.b1() }}")
     mains = []
+    # type families with an awaitable and a plain member
+    kfam = rng.choice(PAIR_FAMILIES + ["generator"]) if force_kinds else None
     for mi in range(2):
         nf = rng.randint(1, 3)
         frags = [fg.frag() for _ in range(nf)]
+        if force_kinds and all_families:
+            # first fragment of the template: every family, plain resp. awaitable member
+            frags.insert(0, fg.kinds("plain" if mi == 0 else "awaitable", "*"))
+        elif force_kinds:
+            frags.insert(rng.randint(0, len(frags)),
+                         fg.kinds("plain" if mi == 0 else "awaitable", kfam))
         if force_evalctx:
             extra = fg.imp_autoescape() if mi == 0 else fg.imp_evalctx_probe()
             frags.insert(rng.randint(0, len(frags)), extra)
@@ -315,7 +400,7 @@ def gen_case(rng, force_evalctx=False):
         n = rng.randint(2, 3)
         xs = [rng.randint(1, 9) for _ in range(n)]
         tasks.append({
-            "main": mains[t] if force_evalctx and t < 2 else rng.choice(mains),
+            "main": mains[t] if (force_evalctx or force_kinds) and t < 2 else rng.choice(mains),
             "name": names[t],
             "xs": xs,
             "ys": [t + 1, t + 4],
